@@ -101,7 +101,11 @@ func (l *LCP) ProcessConfReq(opts []Option) (ack, nak, rej []Option) {
 		case LCPOptAuthProto:
 			if len(o.Data) >= 2 {
 				proto := binary.BigEndian.Uint16(o.Data)
-				if proto == ProtoPAP || proto == ProtoCHAP {
+				// Only CHAP with the MD5 algorithm is implemented (auth.go);
+				// CHAP without an algorithm byte or with MS-CHAP must be
+				// Nak'd with the supported variant, not acknowledged.
+				chapMD5 := proto == ProtoCHAP && len(o.Data) == 3 && o.Data[2] == CHAPMD5
+				if proto == ProtoPAP || chapMD5 {
 					l.peer.AuthProto = proto
 					if len(o.Data) > 2 {
 						l.peer.AuthAlgo = o.Data[2]
